@@ -96,7 +96,17 @@ class RapidProContainer:
 
     def validate(self):
         self.update_global_uuids()
-        self.groups = self.uuid_dict.get_group_list()
+        # Groups the container already holds keep their attributes (query,
+        # status, ...); groups that are only referenced are added.
+        existing = {}
+        for group in self.groups:
+            existing.setdefault(group.name, group)
+        self.groups = [
+            existing.get(group.name, group)
+            for group in self.uuid_dict.get_group_list()
+        ]
+        for group in self.groups:
+            group.assign_uuid(self.uuid_dict)
         # TODO: Update self.fields
 
     def render(self):
